@@ -5,7 +5,7 @@ package main
 // through memory reachable from a parameter, the calls whose effect on such
 // memory is not known to be read-only, and whether a result may alias it.
 //
-// The analysis is intra-procedural and flow-insensitive:
+// The analysis is flow-insensitive and, apart from the helper summaries, intra-procedural:
 //   shared(e): e may denote memory visible to the caller
 //     - a parameter that is not a scalar (and not the io.Writer being written to)
 //     - x.f, x[i], x[i:j], *x, (T)(x) of a shared x (T not string)
@@ -16,6 +16,8 @@ package main
 //     shared x; append(x, ...) with shared x (may write into spare capacity)
 //   unknown call: any call with a shared argument or receiver whose callee is neither in the
 //     read-only list below nor itself a reader of this table
+//   a call of an unexported function of the analysed package that is not itself listed is resolved through that
+//     function's per-parameter summary (helperSummary below), recursively; recursion among helpers stays unknown
 
 import (
 	"bytes"
